@@ -336,3 +336,75 @@ pub fn run_reset(sim: &Sim, idx: u64) {
     }
     let _ = Status::ok("");
 }
+
+/// The *request* stream of a client-streaming or bidirectional call fails under the handler — a
+/// stream reset with an HTTP/2 error code, or the connection lost: the handler is told so, with the
+/// code of the gRPC table; it never sees a clean end of a request stream that did not end.
+/// (RST_STREAM(CANCEL) — the caller going away — is what the tree reports as a clean end; not judged.)
+pub fn run_request_reset(sim: &Sim, idx: u64) {
+    use crate::handlers::{Handler, Script};
+    use crate::peer::raw_call;
+    let reason: Option<u32> = if idx < 14 { Some(idx as u32) } else if sim.chance(3, 4) { Some(sim.pick(&[0u32, 1, 2, 3, 4, 5, 6, 7, 9, 10, 11, 12, 13])) } else { None };
+    let io_kind = sim.pick(&[std::io::ErrorKind::ConnectionReset, std::io::ErrorKind::BrokenPipe, std::io::ErrorKind::UnexpectedEof]);
+    let bidi = sim.chance(1, 2);
+    let n = sim.range(0, 3);
+    let mut data = vec![];
+    let mut sent: Vec<Vec<u8>> = vec![];
+    for _ in 0..n {
+        let m = sim.bytes(sim.range(0, 40) as usize);
+        data.extend(indep::frame(0, &m));
+        sent.push(m);
+    }
+    let cut_inside = !data.is_empty() && sim.chance(1, 3);
+    if cut_inside {
+        let t = sim.range(1, data.len() as u64 - 1).max(1) as usize;
+        data.truncate(t);
+    }
+    let mut body: Vec<Ev> = cut_bytes(sim, &data, &[0]).into_iter().map(Ev::Data).collect();
+    body.push(Ev::Err(match reason {
+        Some(r) => ErrKind::H2(r),
+        None => ErrKind::Io(io_kind),
+    }));
+    sim.nontrivial();
+    sim.sample(|| format!("request stream of a {} call fails with {:?} after {}B ({} whole messages sent{})", if bidi { "bidi" } else { "client-streaming" }, reason.map(|r| format!("RST_STREAM({r})")).unwrap_or(format!("{io_kind:?}")), data.len(), n, if cut_inside { ", cut inside a frame" } else { "" }));
+    sim.ev(|| format!("config: bidi={bidi} reason={reason:?} io={io_kind:?} bytes={} cut_inside={cut_inside}", data.len()));
+    let handler = Handler::new(sim);
+    // the handler reads its whole request stream before answering
+    handler.add_script(1, Script { msgs: vec![b"r".to_vec()], read_mode: 0, ..Default::default() });
+    let mut server = crate::rawsvc::raw_server::RawServer::new(handler.clone());
+    let headers: Vec<(String, Vec<u8>)> = vec![("content-type".into(), b"application/grpc".to_vec()), ("te".into(), b"trailers".to_vec()), ("sim-call".into(), b"1".to_vec())];
+    let path = if bidi { "/sim.Raw/Bidi" } else { "/sim.Raw/ClientStream" };
+    let Some(_resp) = raw_call(sim, "C04", &mut server, http::Method::POST, path, &headers, body, sim.pick(&[0u64, 30])) else { return };
+    let Some(log) = handler.log(1) else {
+        return v4(sim, "request-reset-handler-not-entered", "the handler was never invoked".into());
+    };
+    if reason == Some(8) {
+        sim.probe("request-reset-cancel-not-judged");
+        return;
+    }
+    sim.probe("request-stream-failure-judged");
+    match &log.req_error {
+        None => v4(sim, "request-stream-failure-read-as-clean-end", format!("the request body failed with {:?} after {} bytes; the handler read {} messages and then a clean end of its request stream", reason.map(|r| format!("RST_STREAM({r})")).unwrap_or(format!("{io_kind:?}")), data.len(), log.msgs.len())),
+        Some(e) => {
+            if let Some(r) = reason {
+                let want: Option<&str> = match r {
+                    7 => Some("Unavailable"),
+                    11 => Some("ResourceExhausted"),
+                    12 => Some("PermissionDenied"),
+                    0 | 1 | 2 | 3 | 4 | 6 | 9 | 10 => Some("Internal"),
+                    _ => None,
+                };
+                if let Some(w) = want {
+                    if !e.starts_with(&format!("{w}:")) {
+                        v4(sim, &format!("h2-reset-mapping-wrong-reason-{r}"), format!("request stream reset with reason {r}: the handler sees {e:?}, the gRPC table says {w}"));
+                    }
+                }
+            }
+        }
+    }
+    // what the handler did read is a prefix of what was sent
+    let whole: Vec<Vec<u8>> = sent.iter().map(|m| crate::rawcodec::RawMsg(bytes::Bytes::from(m.clone()))).map(|m| crate::handlers::SimMsg::canon(&m)).collect();
+    if log.msgs.len() > whole.len() || log.msgs.iter().zip(whole.iter()).any(|(a, b)| a != b) {
+        v4(sim, "request-messages-not-a-prefix", format!("handler read {:?}, sent {:?}", log.msgs.iter().map(|m| m.len()).collect::<Vec<_>>(), whole.iter().map(|m| m.len()).collect::<Vec<_>>()));
+    }
+}
